@@ -5,11 +5,22 @@
 #  include <yaclib/fault/inject.hpp>
 
 #  include <atomic>
+#  ifdef YACLIB_VERIF
+#    include <yaclib/fault/verif_hook.hpp>
+#  endif
 
 namespace yaclib_std {
 
+#  ifdef YACLIB_VERIF
+inline void atomic_thread_fence(std::memory_order order) noexcept {
+  if (::yaclib::verif::gHooks != nullptr && ::yaclib::verif::gHooks->on_fence != nullptr) {
+    ::yaclib::verif::gHooks->on_fence(static_cast<int>(order));
+  }
+}
+#  else
 inline void atomic_thread_fence(std::memory_order /*order*/) noexcept {
 }
+#  endif
 
 inline void atomic_signal_fence(std::memory_order /*order*/) noexcept {
 }
